@@ -23,6 +23,9 @@ type Case struct {
 	// Extra adds a second recipient of the big message: "" none, "discard" one whose domain is
 	// not stored, "other" another stored one.
 	Extra string `json:"extra,omitempty"`
+	// Follow is the shape of the follow-up transaction's MAIL command: "" bare, "body" with
+	// BODY=8BITMIME, "size" with its own truthful SIZE, "size+body", "rset+body" (RSET first).
+	Follow string `json:"follow,omitempty"`
 }
 
 var prop = hx.Prop[Case]{
@@ -54,6 +57,7 @@ var prop = hx.Prop[Case]{
 		c.BareLF = rapid.Bool().Draw(t, "barelf")
 		c.Size = rapid.SampledFrom([]string{"", "", "true", "under", "over", "huge", "junk"}).Draw(t, "size")
 		c.Extra = rapid.SampledFrom([]string{"", "", "discard", "other"}).Draw(t, "extra")
+		c.Follow = rapid.SampledFrom([]string{"", "", "body", "body", "size", "size+body", "rset+body"}).Draw(t, "follow")
 		return c
 	},
 	Run: run,
@@ -218,7 +222,14 @@ func run(c Case) *hx.Outcome {
 		}
 	}
 	// the session must remain usable
-	steps := []string{"MAIL FROM:<s@a.test>", "RCPT TO:<small@a.test>", "DATA"}
+	small := []byte("Subject: small\r\n\r\nok\r\n")
+	follow := map[string]string{"": "", "body": " BODY=8BITMIME", "size": fmt.Sprintf(" SIZE=%d", len(small)), "size+body": fmt.Sprintf(" SIZE=%d BODY=8BITMIME", len(small)),
+		"rset+body": " BODY=8BITMIME"}[c.Follow]
+	steps := []string{"MAIL FROM:<s@a.test>" + follow, "RCPT TO:<small@a.test>", "DATA"}
+	if c.Follow == "rset+body" {
+		steps = append([]string{"RSET"}, steps...)
+	}
+	o.Class("follow-up MAIL: " + c.Follow)
 	for _, s := range steps {
 		r, err := cl.Cmd(s)
 		if err != nil || (r.Class() != 2 && r.Code != 354) {
@@ -226,7 +237,6 @@ func run(c Case) *hx.Outcome {
 			return o
 		}
 	}
-	small := []byte("Subject: small\r\n\r\nok\r\n")
 	t0 := time.Now()
 	r, err = cl.Data(small)
 	if err != nil || r.Code != 250 {
